@@ -61,7 +61,9 @@ def check_case(seg, rect, as_tuples=False):
     conv = tuple if as_tuples else list
     fseg = tuple((frac(p[0]), frac(p[1])) for p in seg)
     frect = tuple((frac(p[0]), frac(p[1])) for p in rect)
-    scale = max([F(1)] + [abs(v) for p in fseg + frect for v in p])
+    # "tiny relative to the coordinate scale": relative, whatever the unit (drawings in metres
+    # have coordinates of 1e-3, in nanometres of 1e9); no absolute floor
+    scale = max(abs(v) for p in fseg + frect for v in p)
     tol2 = (REL_TOL * scale) ** 2
     try:
         (accept, result), calls = clip_counted(conv([conv(seg[0]), conv(seg[1])]),
@@ -73,6 +75,23 @@ def check_case(seg, rect, as_tuples=False):
     except Exception as exc:                # pylint: disable=broad-except
         return [("raise", f"{desc} raised {type(exc).__name__}: {exc}")]
     out = []
+    if not as_tuples:
+        # one bounds object kept by the caller and edited in place between calls (the page
+        # size changed): the answer follows the object's contents at the time of the call
+        plot_utils = _lib()
+        kept = [[rect[0][0] + 4096, rect[0][1] - 4096], [rect[1][0] + 4096, rect[1][1] - 4096]]
+        try:
+            plot_utils.clip_segment([list(seg[0]), list(seg[1])], kept)
+            kept[0][0], kept[0][1] = rect[0]
+            kept[1] = list(rect[1])
+            again = plot_utils.clip_segment([list(seg[0]), list(seg[1])], kept)
+        except Exception as exc:            # pylint: disable=broad-except
+            again = repr(exc)
+        if again != (accept, result) and list(again) != [accept, result]:
+            out.append(("kept_bounds", f"{desc}: with one bounds object first "
+                        f"{[[rect[0][0] + 4096, rect[0][1] - 4096], [rect[1][0] + 4096, rect[1][1] - 4096]]} "
+                        f"and then edited in place to {rect!r} the answer is {again!r}, with a "
+                        f"fresh bounds object {(accept, result)!r}"))
     exact = liang_barsky(fseg, frect)
     inside_len2 = F(0)
     if exact is not None:
@@ -148,6 +167,13 @@ def lattices(ctx):
     small = [(x * 1e-3, y * 1e-3) for x, y in points]
     out.append(("scaled", [(a, b) for a in small for b in small], [((0.0, 0.0), (3e-3, 3e-3)),
                                                                     ((0.0, 1e-3), (3e-3, 2e-3))]))
+    # the integer lattice in units of 2^-40 (about 1e-12; exact in binary): any absolute
+    # notion of "close enough" (1e-9, say) is larger than the whole picture there
+    unit = 2.0 ** -40
+    tiny = [(x * unit, y * unit) for x, y in points]
+    out.append(("tiny", [(a, b) for a in tiny for b in tiny],
+                [((0.0, 0.0), (3 * unit, 3 * unit)), ((0.0, unit), (3 * unit, 2 * unit)),
+                 ((unit, 0.0), (unit, 3 * unit))]))
     # seed-derived extra rectangle on the integer lattice (still enumerated completely)
     rnd = core.seeded_ints(ctx.seed, "c08.rect", 4, 3, signed=False)
     x_a, x_b = sorted((rnd[0] % 6 - 1, rnd[1] % 6 - 1))
@@ -199,14 +225,14 @@ def run(ctx):
         "rule": "all segments with both endpoints on an 8x8 lattice (4096 per rectangle: every "
                 "region pair, grazing, vertical/horizontal/zero-length) x rectangles incl. zero-"
                 "height, zero-width and point; the same lattice in tenths, shifted by 1e6 and "
-                "scaled by 1e-3; a seed-derived extra rectangle; thorough: all 225 rectangles with "
+                "scaled by 1e-3 and by 2^-40; a seed-derived extra rectangle; thorough: all 225 rectangles with "
                 "corners on a 5x5 sub-lattice and all 100 on four tenths marks; non-trivial = the exact inside "
                 "part is a proper sub-segment (clipping shortened it); all cases distinct",
         "samples": core.rotate(part.samples, ctx.seed, 4),
         "grazing_or_single_point_cases": cnt.get("grazing_or_point", 0),
         "exhaustive": True,
     }
-    assumptions = ["tolerance = 1e-9 x the largest coordinate magnitude (>= 1)",
+    assumptions = ["tolerance = 1e-9 x the largest coordinate magnitude of the case (purely relative)",
                    "a segment that only touches the rectangle in one point may be accepted or "
                    "rejected (the statement's tolerance clause)"]
     return {"part": part, "coverage": coverage, "assumptions": assumptions}
